@@ -2,16 +2,17 @@
 # tools/seed_round.sh <PROP> <round-suffix e.g. 3> [N...]  -- evaluates /tmp/mut/<PROP>.out<suffix>/patchN.diff in the scratch
 # worktree /tmp/mut/<PROP> against the quick check of <PROP>; result in /tmp/mut/eval/<PROP>-r<suffix>N.json
 p=$1; r=$2; shift 2
+root=${MUT_ROOT:-/tmp/mut}
 [ $# -eq 0 ] && set -- 1 2 3
-mkdir -p /tmp/mut/eval
+mkdir -p $root/eval
 for n in "$@"; do
-  d=/tmp/mut/$p.out$r
+  d=$root/$p.out$r
   [ -f $d/patch$n.diff ] || continue
-  python3 /verif/tools/seed_eval.py /tmp/mut/$p $d/patch$n.diff $d/demo$n.py $p > /tmp/mut/eval/$p-r$r$n.json 2>&1
+  python3 /verif/tools/seed_eval.py $root/$p $d/patch$n.diff $d/demo$n.py $p > $root/eval/$p-r$r$n.json 2>&1
   python3 - <<EOF
 import json
 try:
-    d=json.load(open('/tmp/mut/eval/$p-r$r$n.json'))
+    d=json.load(open('$root/eval/$p-r$r$n.json'))
     c=d['checks']['$p']
     print('$p-r$r$n', 'tests=%s'%d['tests'][:12], 'demo clean/patched=%s/%s'%(d['demo_clean_exit'],d['demo_patched_exit']), 'check exit=%s viol=%s wall=%s'%(c['exit'],c['violations'],c['wall_s']), (c['examples'] or [''])[0][:150])
 except Exception as e:
